@@ -43,12 +43,54 @@ def r_maxub(ctx, rule='R11.b'):
         good = good and r2 is not None and M.is_call(r2, 'Ord::cmp') and sp(r2[2][0], 'value', 1) and sp(r2[2][1], 'value', 2)
         r3 = _closure_ret(ctx.F, rt[2][1])
         good = good and r3 is not None and M.is_call(r3, 'StateRanking::compare') and sp(r3[2][1], 'state', 1) and sp(r3[2][2], 'state', 2)
+    if not good:
+        good = _lexico_table(ctx, b, sp)
     ctx.check(good, rule, 'maxub-order', b, b.loc(0), 'MaxUB::compare(l, r) = l.ub ? r.ub, then l.value ? r.value, then ranking(l.state, r.state), operands in that order',
               'MaxUB::compare is not cmp(l.ub, r.ub).then(cmp(l.value, r.value)).then(ranking(l.state, r.state)): %s' % M.show(rt)[:300])
     cb = ctx.body('utils::CompareSubProblem', 'compare', trait='Compare')
     rt = _ret_term(cb)
     good = M.is_call(rt, 'SubProblemRanking::compare') and M.is_param(rt[2][1], index=1) and M.is_param(rt[2][2], index=2)
     ctx.check(good, rule, 'compare-forwards', cb, cb.loc(0), 'CompareSubProblem::compare forwards (l, r) unswapped', 'CompareSubProblem::compare returns %s' % M.show(rt))
+
+
+def _lexico_table(ctx, b, sp):
+    """path-table form of the lexicographic order: on every path the result is the first non-Equal comparison among
+    cmp(l.ub, r.ub), cmp(l.value, r.value), ranking(l.state, r.state)"""
+    is_ub = lambda t: M.is_call(t, 'Ord::cmp') and sp(t[2][0], 'ub', 1) and sp(t[2][1], 'ub', 2)
+    is_val = lambda t: M.is_call(t, 'Ord::cmp') and sp(t[2][0], 'value', 1) and sp(t[2][1], 'value', 2)
+    is_rank = lambda t: M.is_call(t, 'StateRanking::compare') and sp(t[2][1], 'state', 1) and sp(t[2][2], 'state', 2)
+    paths = bool_fn_paths(b)
+    if not paths:
+        return False
+    def rel_of(atoms, fa, fb):
+        rel = frozenset('<=>')
+        for a in atoms:
+            if a[0] == 'cmp':
+                if sp(a[1], fa, 1) and sp(a[2], fb, 2):
+                    rel &= a[3]
+                elif sp(a[2], fa, 1) and sp(a[1], fb, 2):
+                    rel &= frozenset({'<': '>', '>': '<', '=': '='}[c] for c in a[3])
+        return rel
+    names = {'<': 'Less', '=': 'Equal', '>': 'Greater'}
+    for (atoms, rt, blocks, end) in paths:
+        ru = rel_of(atoms, 'ub', 'ub')
+        rv = rel_of(atoms, 'value', 'value')
+        const = rt[2] if isinstance(rt, tuple) and rt and rt[0] == 'aggr' and rt[1].endswith('cmp::Ordering') else None
+        if '=' not in ru or ru != frozenset('='):
+            # ub decides on this path (or is not known equal): the result must be the ub comparison
+            if ru == frozenset('='):
+                pass
+            elif is_ub(rt) or (const is not None and ru == frozenset({v: k for k, v in names.items()}[const])):
+                continue
+            else:
+                return False
+        if rv != frozenset('='):
+            if is_val(rt) or (const is not None and len(rv) == 1 and names[list(rv)[0]] == const):
+                continue
+            return False
+        if not is_rank(rt):
+            return False
+    return True
 
 
 def r_nodup(ctx):
@@ -118,7 +160,7 @@ def r_nodup(ctx):
             oki = not any(p in r for p in pa)
         ctx.check(oki, 'R11.c', 'vacant/key-inserted', pb, pb.loc(ent[0][0]), 'the key is bound to the new id on every path', 'the Vacant arm does not insert key -> id on every path')
         # the id is either a fresh slot (nodes.len() before nodes.push(node), with a pos slot pushed) or a recycled one overwritten with node
-        defs = var_def_terms(pb, idt)
+        defs = [x for leaf in M.leaves(idt) for x in var_def_terms(pb, leaf)]
         fresh = [d for d in defs if isinstance(d, tuple) and d[0] == 'aggr' and M.is_call(M.simplify_field(d, '0', None), 'len') and _nd_field(M.simplify_field(d, '0', None)[2][0], 'nodes')]
         rec = [d for d in defs if M.contains(d, lambda x: M.is_call(x, 'pop') and _nd_field(x[2][0], 'recycle_bin'))]
         np_ = [(bb, t) for (bb, t) in pb.calls_to('push') if _nd_field(pb.origin.operand(t['args'][0], pb.term_point(bb)), 'nodes')]
@@ -273,13 +315,17 @@ def r_nodup(ctx):
         ctx.check(okr, 'R11.c', 'pop/result/%s' % ('some' if removed else 'none'), qb, qb.loc(0), 'pop returns Some(the removed node) / None only when empty', 'pop returns %s on a path that %s the root' % (M.show(rt)[:120], 'removed' if removed else 'did not remove'))
     # the new root's position is reset and it is sunk
     pw = [(pt, d, v) for (pt, d, v, s) in writes(qb) if isinstance(d, tuple) and d[0] == 'index' and _nd_field(d[1], 'pos')]
-    good = any(M.is_const(v, 0) and M.contains(d[2], lambda x: isinstance(x, tuple) and x[0] == 'index' and _nd_field(x[1], 'heap') and M.is_const(x[2], 0)) for (pt, d, v) in pw)
+    # the element now at the root: heap[0], heap.first(), heap.get(0)
+    first_call = lambda x: M.is_call(x, 'first', 'get') and _nd_field(x[2][0], 'heap') and (len(x[2]) == 1 or M.is_const(x[2][1], 0))
+    new_root = lambda t: M.contains(t, lambda x: (isinstance(x, tuple) and x and x[0] == 'index' and _nd_field(x[1], 'heap') and M.is_const(x[2], 0)) or first_call(x))
+    good = any(M.is_const(v, 0) and new_root(d[2]) for (pt, d, v) in pw)
     bd = aggr_assigns(qb, 'Action', 'BubbleDown')
     good = good and bool(bd)
     if good:
         v = qb.origin.rvalue(bd[0][2]['rv'], (bd[0][0], bd[0][1]))
-        good = M.contains(v, lambda x: isinstance(x, tuple) and x[0] == 'index' and _nd_field(x[1], 'heap') and M.is_const(x[2], 0))
-        ok, cut, bad_ = M.guarded(qb, [(bd[0][0], bd[0][1])], lambda atoms, lit: any(a_[0] == 'F' and M.is_call(a_[1], 'is_empty') and _nd_field(a_[1][2][0], 'heap') for a_ in atoms))
+        good = new_root(v)
+        ok, cut, bad_ = M.guarded(qb, [(bd[0][0], bd[0][1])], lambda atoms, lit: any(
+            empty_lit(a_, lambda x: _nd_field(x, 'heap'), empty=False) or opt_is(a_, first_call, 'Some') for a_ in atoms))
         good = good and ok
         pa_ = call_points(qb, 'process_action')
         r = qb.reach(qb.after(srp), avoid=pa_)
@@ -507,12 +553,11 @@ def r_heap_index(ctx, rule='R11.f'):
                 elif left(a[2]) and size(a[1]): rl &= frozenset({'<': '>', '>': '<', '=': '='}[x] for x in a[3])
                 elif right(a[1]) and size(a[2]): rr &= a[3]
                 elif right(a[2]) and size(a[1]): rr &= frozenset({'<': '>', '>': '<', '=': '='}[x] for x in a[3])
-            if a[0] == 'in' and M.is_call(a[1], 'compare_at_pos'):
-                ca = a[1][2]
-                if left(ca[1]) and right(ca[2]):
-                    cmpres = set(a[2]) if cmpres is None else cmpres & set(a[2])
-                else:
-                    cmpres = {'?'}
+            pass
+        is_cmp_lr = lambda t: M.is_call(t, 'compare_at_pos') and left(t[2][1]) and right(t[2][2])
+        cmpres = ord_names(atoms, is_cmp_lr)
+        if ord_names(atoms, lambda t: M.is_call(t, 'compare_at_pos') and not is_cmp_lr(t)) is not None:
+            cmpres = {'?'}
         rt = _path_ret(mc, blocks, end)
         out = '0' if M.is_const(rt, 0) else 'left' if left(rt) else 'right' if right(rt) else M.show(rt)[:40]
         rows.append((rl, rr, cmpres, out))
